@@ -218,6 +218,7 @@ typedef struct
     char name[24];
     sslKeys_t *keys;
     int used;
+    char idcert[512], idkey[512];   /* the identity files, for the SNI callback (which must hand out keys of its own) */
 } keyset_t;
 static keyset_t g_keys[MAXKEYS];
 
@@ -294,6 +295,11 @@ typedef struct ep
     int sentrc;
     int have_sentrc;
     int ndlv;
+    char sni_seen[80];  /* server: host name handed to the SNI callback */
+    char alpn_seen[80]; /* server: protocols handed to the ALPN callback; client: n/a */
+    char alpn_pick[32]; /* server: the protocol its application wants */
+    int snicalls, alpncalls;
+    keyset_t *sniks;    /* the key set the SNI callback loads its keys from */
 } ep_t;
 
 #define MAXEP 64
@@ -659,6 +665,10 @@ static void emit_state(sb_t *o, ep_t *e)
             (t >= 0 && t <= 10) ? kxn[t] : "other", ssl->cipher ? ssl->cipher->ident : 0,
             !!(ssl->flags & SSL_FLAGS_CLIENT_AUTH), tick, ssl->sec.tls13UsingPsk ? 1 : 0,
             (int) ssl->tls13EarlyDataStatus, e->tagmis);
+    }
+    if (e->snicalls || e->alpncalls)
+    {
+        sb_printf(o, ",\"sni\":\"%s\",\"snicalls\":%d,\"alpn\":\"%s\",\"alpncalls\":%d", e->sni_seen, e->snicalls, e->alpn_seen, e->alpncalls);
     }
     if (e->have_sentrc)
     {
@@ -1157,6 +1167,7 @@ static void cmd_keys(char **tok, int ntok)
         else if (v && !strcmp(v, "rsa")) lo.key_type = PS_RSA;
         if (opt_int(tok, ntok, "allowexpired", 0)) lo.flags |= LOAD_KEYS_OPT_ALLOW_OUT_OF_DATE_CERT_PARSE;
         rc = matrixSslLoadKeys(ks->keys, id ? cert : NULL, id ? key : NULL, NULL, ca, &lo);
+        snprintf(ks->idcert, sizeof(ks->idcert), "%s", cert); snprintf(ks->idkey, sizeof(ks->idkey), "%s", key);
         v = opt_get(tok, ntok, "swapcert");
         if (v && rc >= 0 && ks->keys->identity)
         {
@@ -1220,6 +1231,45 @@ static void cmd_keys(char **tok, int ntok)
     emit_end(&g_out);
 }
 
+
+/* server-side extension callbacks: record what the library hands over */
+static ep_t *ep_of_ssl(void *ssl)
+{
+    int i;
+    for (i = 0; i < MAXEP; i++) if (g_eps[i].ssl == (ssl_t *) ssl) return &g_eps[i];
+    return NULL;
+}
+static void sni_cb(void *ssl, char *hostname, int32 hostnameLen, sslKeys_t **newKeys)
+{
+    ep_t *e = ep_of_ssl(ssl);
+    if (e)
+    {
+        int n = hostnameLen < (int) sizeof(e->sni_seen) - 1 ? hostnameLen : (int) sizeof(e->sni_seen) - 1, i;
+        for (i = 0; i < n; i++) e->sni_seen[i] = (hostname[i] >= 0x21 && hostname[i] < 0x7f && hostname[i] != '"' && hostname[i] != '\\') ? hostname[i] : '?';
+        e->sni_seen[n > 0 ? n : 0] = 0;
+        e->snicalls++;
+    }
+    /* as apps/ssl/server.c does: hand out keys the application owns (here: the key set the session was created with) */
+    *newKeys = (e && e->sniks) ? e->sniks->keys : NULL;
+}
+static void alpn_cb(void *ssl, short protoCount, char *proto[MAX_PROTO_EXT], int32 protoLen[MAX_PROTO_EXT], int32 *index)
+{
+    ep_t *e = ep_of_ssl(ssl);
+    int k, o = 0;
+    *index = -1;
+    if (!e) return;
+    e->alpncalls++;
+    e->alpn_seen[0] = 0;
+    for (k = 0; k < protoCount && k < MAX_PROTO_EXT; k++)
+    {
+        int i;
+        if (k && o < (int) sizeof(e->alpn_seen) - 1) e->alpn_seen[o++] = ',';
+        for (i = 0; i < protoLen[k] && o < (int) sizeof(e->alpn_seen) - 1; i++)
+            e->alpn_seen[o++] = (proto[k][i] >= 0x21 && proto[k][i] < 0x7f && proto[k][i] != '"' && proto[k][i] != '\\') ? proto[k][i] : '?';
+        e->alpn_seen[o] = 0;
+        if (*index < 0 && (int) strlen(e->alpn_pick) == protoLen[k] && !memcmp(e->alpn_pick, proto[k], protoLen[k])) *index = k;
+    }
+}
 
 static int parse_ntype(const char *v, int dflt)
 {
@@ -1380,10 +1430,49 @@ static void cmd_new(char **tok, int ntok)
             if (opt_get(tok, ntok, "ntype")) opts.validateCertsOpts.nameType = parse_ntype(opt_get(tok, ntok, "ntype"), NAME_TYPE_HOSTNAME);
             if (opt_get(tok, ntok, "mflags")) opts.validateCertsOpts.mFlags = (uint32_t) opt_int(tok, ntok, "mflags", 0);
             if (opt_get(tok, ntok, "vflags")) opts.validateCertsOpts.flags = (uint64_t) opt_int(tok, ntok, "vflags", 0);
-            rc = matrixSslNewClientSession(&e->ssl, ks->keys, sid, ns ? suites : NULL, ns, cb,
-                    unescape_name(opt_get(tok, ntok, "name"), nmbuf, sizeof(nmbuf)), NULL, NULL, &opts);
+            {
+                /* ClientHello extensions the application supplies: server_name (sni=<host>) and ALPN (alpn=<p1,p2,..>) */
+                tlsExtension_t *ext = NULL;
+                const char *sni = opt_get(tok, ntok, "sni"), *alpn = opt_get(tok, ntok, "alpn");
+                int32 xrc = 0;
+                if (sni || alpn) xrc = matrixSslNewHelloExtension(&ext, NULL);
+                if (xrc >= 0 && sni)
+                {
+                    unsigned char *xd = NULL; int32 xl = 0;
+                    xrc = matrixSslCreateSNIext(NULL, (unsigned char *) sni, (int32) strlen(sni), &xd, &xl);
+                    if (xrc >= 0) { xrc = matrixSslLoadHelloExtension(ext, xd, xl, EXT_SNI); psFree(xd, NULL); }
+                }
+#ifdef USE_ALPN
+                if (xrc >= 0 && alpn)
+                {
+                    char tmp2[128], *pp[8]; unsigned char *pr[8]; int32 pl[8]; int np, k2;
+                    unsigned char *xd = NULL; int32 xl = 0;
+                    snprintf(tmp2, sizeof(tmp2), "%s", alpn);
+                    np = split_csv(tmp2, pp, 8);
+                    for (k2 = 0; k2 < np; k2++) { pr[k2] = (unsigned char *) pp[k2]; pl[k2] = (int32) strlen(pp[k2]); }
+                    xrc = matrixSslCreateALPNext(NULL, np, pr, pl, &xd, &xl);
+                    if (xrc >= 0) { xrc = matrixSslLoadHelloExtension(ext, xd, xl, EXT_ALPN); psFree(xd, NULL); }
+                }
+#else
+                (void) alpn;    /* ALPN is not part of this build configuration */
+#endif
+                if (xrc < 0) rc = xrc;      /* the extension could not be built (allocation failure): an application stops here */
+                else rc = matrixSslNewClientSession(&e->ssl, ks->keys, sid, ns ? suites : NULL, ns, cb,
+                        unescape_name(opt_get(tok, ntok, "name"), nmbuf, sizeof(nmbuf)), ext, NULL, &opts);
+                if (ext) matrixSslDeleteHelloExtension(ext);
+            }
         }
     }
+    e->sni_seen[0] = e->alpn_seen[0] = e->alpn_pick[0] = 0; e->snicalls = e->alpncalls = 0;
+    e->sniks = ks;
+    if (rc >= 0 && e->server && e->ssl && opt_int(tok, ntok, "snicb", 0)) matrixSslRegisterSNICallback(e->ssl, sni_cb);
+#ifdef USE_ALPN
+    if (rc >= 0 && e->server && e->ssl && (v = opt_get(tok, ntok, "alpnpick")))
+    {
+        snprintf(e->alpn_pick, sizeof(e->alpn_pick), "%s", v);
+        matrixSslRegisterALPNCallback(e->ssl, alpn_cb);
+    }
+#endif
     if (rc >= 0 && (v = opt_get(tok, ntok, "nosuites")))
     {
         /* per-session disabling of cipher suites (server side restriction of the enabled set) */
